@@ -9,7 +9,7 @@ DELTAS = [0, 0.0625, 0.125, 0.25, 0.5, 0.75, 1, 1.0, 1.5, 2, 3]
 
 @st.composite
 def timing_program(draw, max_routines=6, sends=False, nondyadic=False,
-                   apps=True):
+                   apps=True, tempo_ops=False):
     """Nested routines with finite yield sequences on SystemClock, AppClock
     and TempoClocks of fixed tempo (C05, C07)."""
     nclocks = draw(st.integers(0, 3))
@@ -53,6 +53,10 @@ def timing_program(draw, max_routines=6, sends=False, nondyadic=False,
         tag[0] += 1
         k = draw(st.integers(0, 5))
         if k == 0:
+            if draw(st.booleans()):
+                # message carrying a completion bundle with its own latency
+                return ['msg', tag[0], [draw(st.sampled_from(
+                    [0, 0.125, 0.25, 1])), ['/done', tag[0]]]]
             return ['msg', tag[0]]
         lat = draw(st.sampled_from([None, -1, 0, 0.0, 0.125, 0.25, 0.5, 1]))
         elems = [['/b', tag[0]]]
@@ -82,7 +86,18 @@ def timing_program(draw, max_routines=6, sends=False, nondyadic=False,
                 body.append(send_op())
             if kids and draw(st.booleans()):
                 k = kids.pop(0)
-                body.append(['play', k, draw(st.sampled_from(refs)), quant()])
+                if draw(st.integers(0, 3)) == 0:
+                    # scheduled directly on a clock, delta in its own unit
+                    body.append(['sched', draw(st.sampled_from(
+                        [r for r in refs if r is not None])),
+                        draw(st.sampled_from(DELTAS)), k])
+                else:
+                    body.append(['play', k, draw(st.sampled_from(refs)),
+                                 quant()])
+            if tempo_ops and nclocks and draw(st.integers(0, 5)) == 0:
+                # a routine changes a tempo while others sleep on that clock
+                body.append(['tempo', draw(st.integers(0, nclocks - 1)),
+                             draw(st.sampled_from([0.5, 1, 2, 4]))])
             if s < steps - 1 or draw(st.booleans()):
                 body.append(['wait', draw(st.sampled_from(DELTAS))])
         for k in kids:
